@@ -123,7 +123,10 @@ def stage(repo=None, need_ast=False):
                 fh.write(key + '\n')
             shutil.rmtree(d, ignore_errors=True)
             os.rename(tmp, d)
-            _prune(keep=d)
+            try:
+                _prune(keep=d)
+            except OSError:
+                pass      # housekeeping only: never let it fail a check
         else:
             try:
                 os.utime(os.path.join(d, 'OK'), None)
@@ -157,5 +160,9 @@ def _prune(keep, maxn=300, max_age=900):
     # stale tmp dirs older than 10 minutes
     for n in os.listdir(CACHE):
         p = os.path.join(CACHE, n)
-        if '.tmp' in n and time.time() - os.path.getmtime(p) > 600:
-            shutil.rmtree(p, ignore_errors=True)
+        try:
+            # another check may finish (rename away) its temporary directory between the listing and this look
+            if '.tmp' in n and time.time() - os.path.getmtime(p) > 600:
+                shutil.rmtree(p, ignore_errors=True)
+        except OSError:
+            pass
